@@ -7,6 +7,7 @@ verus! {
 //@ include prelude/chains.rs
 //@ include prelude/std_specs.rs
 //@ include prelude/panic.rs
+//@ include prelude/macroom.rs
 pub mod u {
 use super::*;
 
@@ -291,12 +292,7 @@ impl BigUint {
 //@ stub u_core/set_zero
 }
 
-//@ assume mac3 : multi-regime multiply-accumulate (schoolbook / half-Karatsuba / Karatsuba / Toom-3 with in-place accumulation): a multi-day proof; assumed with its call-site contract
-#[verifier::external_body]
-fn mac3(acc: &mut [BigDigit], b: &[BigDigit], c: &[BigDigit])
-    requires old(acc).len() >= b.len() + c.len() + 1, val(old(acc)@) + val(b@) * val(c@) < pw(old(acc).len() as nat)
-    ensures final(acc).len() == old(acc).len(), val(final(acc)@) == val(old(acc)@) + val(b@) * val(c@)
-{ unimplemented!() }
+//@ stub k_mac3/mac3
 
 pub open spec fn p2(k: nat) -> nat { vstd::arithmetic::power2::pow2(k) }
 impl vstd::std_specs::ops::ShlAssignSpecImpl<u32> for BigUint {
@@ -333,6 +329,8 @@ fn mul3(x: &[BigDigit], y: &[BigDigit]) -> /*+*/(r: /*-*/BigUint/*+*/)/*-*/
     proof {
         lemma_valp_zeros(prod.data@, len as nat);
         lemma_prod_bound(x@, y@);
+        lemma_valp_bound(x@, x@.len()); lemma_valp_bound(y@, y@.len());
+        lemma_room_zero(val(x@), val(y@), x@.len(), y@.len(), len as nat);
     }
 //+}
 
